@@ -227,6 +227,24 @@ def check(run):
     # that carries the log consumer over a truncation point
     from checks import c02
     bscns.append(c02.stalled_run(1650, prefill={"count": 2450, "consumed": 2445}))
+    # round 8: a recipient whose connection cannot be written to (it stopped reading; the write fails when its write deadline passes)
+    # must not cost the other matching sessions their copy - whether it subscribed before them, between them or after them
+    for pos in (0, 1, 2):
+        for sq in (0, 1):
+            ops = [{"op": "connect", "c": 8, "n": 1, "client": "p1", "ka": 60000}]
+            order = [2, 3]
+            order.insert(pos, 1)
+            for c in order:
+                ops.append({"op": "connect", "c": c, "n": 1, "client": "s%d" % c, "ka": 4 if c == 1 else 60000})
+                ops.append({"op": "sub", "c": c, "id": 10 + c, "fs": [{"f": ["k", "x"] if c != 3 else ["k", "+"], "q": sq if c == 1 else c % 2}]})
+            tag = "w%d%d" % (pos, sq)
+            ops += [{"op": "pub", "c": 8, "t": ["k", "x"], "p": "a-" + tag, "q": 1, "r": False, "id": 1},
+                    {"op": "stall", "c": 1, "on": True},
+                    {"op": "pub", "c": 8, "t": ["k", "x"], "p": "b-" + tag, "q": 1, "r": False, "id": 2, "nowait": True},
+                    {"op": "wait", "ms": 400}, {"op": "idle", "ms": 9000, "nowait": True}, {"op": "wait", "ms": 600},
+                    {"op": "pub", "c": 8, "t": ["k", "x"], "p": "c-" + tag, "q": 1, "r": False, "id": 3},
+                    {"op": "quiesce"}]
+            bscns.append({"nodes": [1], "lenient": True, "ops": ops})
     btpath, crashes = brokerlib.execute(run, bscns, "c01b", shards=12)
     if crashes:
         raise vlib.Inconclusive("broker driver died: %s" % crashes[0][2][-2000:])
